@@ -325,11 +325,12 @@ fn gen_pred(rng: &mut Rng, col: &str) -> String {
 }
 
 fn sorted_by(rows: &[Vec<SqlValue>], idx: usize, desc: bool) -> bool {
+    // integers: by f64 first (comparable with floats), then exactly
     let key = |v: &SqlValue| -> (u8, f64, Vec<u8>) {
         match v {
             SqlValue::Null => (1, 0.0, vec![]),
             SqlValue::Varchar(s) | SqlValue::Character(s) => (0, 0.0, s.as_bytes().to_vec()),
-            SqlValue::Integer(i) | SqlValue::Bigint(i) => (0, *i as f64, vec![]),
+            SqlValue::Integer(i) | SqlValue::Bigint(i) => (0, *i as f64, ((*i as i128) + (1i128 << 64)).to_be_bytes().to_vec()),
             SqlValue::Double(f) | SqlValue::Numeric(f) => (0, *f, vec![]),
             _ => (0, 0.0, vec![]),
         }
@@ -351,53 +352,47 @@ fn sorted_by(rows: &[Vec<SqlValue>], idx: usize, desc: bool) -> bool {
     })
 }
 
-/// The recorded finding C02/f64-key-collapse, and nothing else: the query compares `a` with an
-/// integer literal of magnitude >= 2^53 and every row in which the two results differ (when the rows
-/// carry `a`) has |a| >= 2^53.
-fn f64_collapse_signature(q: &str, pr: &[Vec<SqlValue>], ir: &[Vec<SqlValue>]) -> Option<&'static str> {
-    let big_literal = q
-        .split(|c: char| !(c.is_ascii_digit() || c == '.'))
-        .any(|tok| !tok.contains('.') && tok.parse::<i128>().map(|v| v >= (P53 as i128)).unwrap_or(false));
-    if !big_literal {
-        return None;
-    }
-    let carries_a = q.starts_with("SELECT id, a, b, s");
-    if carries_a {
-        let (bp, bi) = (bag(pr), bag(ir));
-        let differing = pr.iter().chain(ir.iter()).filter(|r| bp.get(&canon::row(r)) != bi.get(&canon::row(r)));
-        for r in differing {
-            match &r[1] {
-                SqlValue::Integer(v) | SqlValue::Bigint(v) if v.abs() >= P53 => {}
-                _ => return None,
-            }
-        }
-    }
-    Some("C02/f64-key-collapse")
-}
-
-/// deterministic reproduction of the recorded finding (printed as KNOWN-FINDING on every run)
+/// regression probe for d4974317 (keys and bounds at 2^53 and beyond)
 fn probe_f64_collapse(rep: &mut Report) {
     let mut tw = Twin { plain: Db::new(), indexed: Db::new() };
     for sql in [
-        "CREATE TABLE t (id INTEGER PRIMARY KEY, a BIGINT, b INTEGER, s VARCHAR(10))",
-        "INSERT INTO t VALUES (1, 9007199254740992, 1, 'x')",
-        "INSERT INTO t VALUES (2, 9007199254740993, 2, 'y')",
+        "CREATE TABLE t (id INTEGER PRIMARY KEY, a BIGINT NOT NULL, b INTEGER, s VARCHAR(10))",
+        "INSERT INTO t VALUES (1, 9007199254740993, 1, 'x')",
+        "INSERT INTO t VALUES (2, 9007199254740992, 2, 'y')",
+        "INSERT INTO t VALUES (4, 9007199254740994, 4, 'w')",
         "INSERT INTO t VALUES (3, 5, 3, 'z')",
     ] {
         tw.both(sql);
     }
     tw.indexed.exec("CREATE INDEX ia ON t (a)");
-    let q = "SELECT id, a, b, s FROM t WHERE a = 9007199254740993 ORDER BY b";
+    for q in [
+        "SELECT id, a, b, s FROM t WHERE a = 9007199254740993 ORDER BY b",
+        "SELECT id, a, b, s FROM t WHERE a > 9007199254740992 ORDER BY b",
+        "SELECT id, a, b, s FROM t WHERE a < 9007199254740993 ORDER BY b",
+        "SELECT DISTINCT a FROM t WHERE a IN (5, 9007199254740993)",
+        "SELECT id, a, b, s FROM t WHERE a BETWEEN 9007199254740992 AND 9007199254740993 ORDER BY b",
+    ] {
     let (p, i) = (tw.plain.query(q), tw.indexed.query(q));
-    rep.case("probe f64 collapse", true);
+    rep.case(&format!("probe f64 collapse {}", q), true);
     rep.count("deterministic_probes");
     if let (Some(pr), Some(ir)) = (p.rows(), i.rows()) {
         if bag(pr) != bag(ir) {
-            let sig = f64_collapse_signature(q, pr, ir);
-            rep.fail(FailKind::Oracle, sig, "result multiset depends on the existence of an index [CREATE INDEX ia ON t (a)] (probe)", &format!("{}
+            rep.fail(FailKind::Oracle, None, "result multiset depends on the existence of an index [CREATE INDEX ia ON t (a)] (probe)", &format!("{}
 -- query: {}
 without: {}
 with:    {}", tw.indexed.log.join(";\n"), q, p.brief(), i.brief()));
+        }
+    }
+    }
+    // index-served ORDER BY over collapsed keys
+    for q in ["SELECT id, a FROM t ORDER BY a", "SELECT id, a FROM t ORDER BY a DESC"] {
+        let (p, i) = (tw.plain.query(q), tw.indexed.query(q));
+        rep.count("deterministic_probes");
+        if let (Some(pr), Some(ir)) = (p.rows(), i.rows()) {
+            let seq = |r: &Vec<Vec<SqlValue>>| r.iter().map(|x| canon::val(&x[1])).collect::<Vec<_>>();
+            if seq(pr) != seq(ir) {
+                rep.fail(FailKind::Oracle, None, "ORDER BY key sequence depends on the index (keys >= 2^53)", &format!("{}; -- query: {} without: {} with: {}", tw.indexed.log.join("; "), q, p.brief(), i.brief()));
+            }
         }
     }
 }
@@ -527,8 +522,7 @@ fn twin_case(rep: &mut Report, rng: &mut Rng, n: usize, nq: usize) {
                 let nontrivial = !pr.is_empty() && pr.len() < total.max(1);
                 rep.case(&case_id, nontrivial);
                 if bag(pr) != bag(ir) {
-                    let sig = f64_collapse_signature(&q, pr, ir);
-                    rep.fail(FailKind::Oracle, sig, &format!("result multiset depends on the existence of an index [{}]", ddl.join("; ")), &replay(&tw, &q, &p, &i));
+                    rep.fail(FailKind::Oracle, None, &format!("result multiset depends on the existence of an index [{}]", ddl.join("; ")), &replay(&tw, &q, &p, &i));
                 }
                 if let Some((k, d)) = ord {
                     if !sorted_by(ir, k, d) || !sorted_by(pr, k, d) {
